@@ -974,3 +974,51 @@ def run_stateful(chk, model, n, suite="STATEFUL"):
     if model:
         outs = model.call(reqs)
         chk.correspond(suite, desc, impl, outs)
+
+
+# --------------------------------------------------------------------------
+# patterns whose FIRST node is a wildcard: the prefix is the empty string
+# --------------------------------------------------------------------------
+WILD_FIRST = ["*", "*.ftl", "**", "*/foo", "**/foo/*", "*/{v}/**", "**/*.ftl", "*-x/{locale}/f", "*/*",
+              "**/{v}", "*{v}", "**/x-*"]
+
+
+def run_wild_first(chk, model, n):
+    rng = chk.rng
+    reqs, impl, desc = [], [], []
+    for i in range(n):
+        pat = rng.choice(WILD_FIRST) if i >= len(WILD_FIRST) else WILD_FIRST[i]
+        if rng.random() < 0.3:
+            pat = pat + rng.choice(["/more", ".x", "/{locale}"])
+        env = [("v", rng.choice(["q", "a-b"])), ("locale", rng.choice(["de", "fr"]))]
+        if rng.random() < 0.3:
+            env = env[:1]
+        side = (pat, env, None)
+        extra = [("unused", "u")] if rng.random() < 0.5 else [("v", "zz")]
+        chk.count(("wild-first", side, tuple(extra)))
+        got = impl_prefix(side)
+        copy = impl_result(lambda: mk(side).with_env(dict(extra)).prefix)
+        desc += [("prefix", side), ("prefix-with_env", side, extra)]
+        impl += [got, copy]
+        sx = side_sx(side)
+        reqs += [(4, sx), (4, [sx[0], sx[1] + [[canon(k), canon(v)] for k, v in extra if k not in dict(env)]
+                               if extra[0][0] not in dict(env) else
+                               [[canon(k), canon(dict(extra).get(k, v))] for k, v in env], sx[2]])]
+        for what, g in (("prefix", got), ("prefix-of-with_env-copy", copy)):
+            if g != [0, []]:
+                chk.fail("wildcard-first-prefix-not-empty", {"side": side, "extra_env": extra, "what": what},
+                         {"got": g, "expected": ""})
+        # every matched path starts with the prefix
+        fills = {"*": rng.choice(["a", "q.b", ""]), "**": rng.choice(["", "d/", "d/e/"])}
+        path = pat.replace("**/", fills["**"]).replace("**", fills["**"] + "f").replace("*", fills["*"])
+        for k, v in env:
+            path = path.replace("{%s}" % k, v)
+        m = impl_match(side, path)
+        desc.append(("match", side, path))
+        impl.append(m)
+        reqs.append((2, sx + [canon(path)]))
+        if m[0] == 0 and m[1] and got[0] == 0 and not path.startswith(common.l2s(got[1])):
+            chk.fail("match-outside-prefix", {"side": side, "path": path}, {"prefix": common.l2s(got[1])})
+    if model:
+        outs = model.call(reqs)
+        chk.correspond("WILDCARD-FIRST", desc, impl, outs)
